@@ -151,8 +151,18 @@ Proof. vm_compute. reflexivity. Qed.
    Lib/Seg.v feed/drain is the Dispatch loop with handleError's decision: a decode error closes THIS connection (EClose,
    buffer dropped, connection dead) or answers THIS request (EReply) and goes on - conn.go as repaired, read from the
    source (c08_dispatch_shape_ok).  mfeed/mrun: one dispatch state per connection, interleaved reads. *)
-Theorem c08_dispatch_shape_ok : dispatch_continues_after_reply = true.
-Proof. exact eq_refl. Qed.
+Theorem c08_dispatch_shape_ok : dispatch_continues_after_reply = true /\ dispatch_progress_guard = true.
+Proof. exact (conj eq_refl eq_refl). Qed.
+
+(* the progress check of Dispatch (before := buf.Len() ... if buf.Len() >= before { return }): drain_g / feed_g are the loop
+   with this check.  For the prefix-stable framers above it is the same loop; and for ANY framer - also one that reports
+   an error reply without consuming input, as a third-party codec may - the loop ends within its bound as long as the
+   codec never returns a FRAME without consuming input *)
+Theorem c08_dispatch_progress : forall (F : Type) (parse : bytes -> presult F),
+  (stable parse -> forall s c, feed_g parse s c = feed parse s c) /\
+  ((forall b f, parse b <> POk f 0) -> forall s c, stuck (feed_g parse s c) = stuck s).
+Proof. exact (fun F parse => conj (fun St => feed_g_eq parse St) (feed_g_never_spins parse)). Qed.
+Print Assumptions c08_dispatch_progress.
 
 Theorem c08_error_is_local : forall (F : Type) (parse : bytes -> presult F),
   (* whatever connection i reads - malformed or not - no other connection's state changes *)
